@@ -33,6 +33,9 @@ def blotter_coherence(tr, market, phase):
         for name, lst in views.items():
             if len(lst) != 1:
                 tr.violate("C15", "order-not-exactly-once-in-view", {"view": name, "count": min(len(lst), 2), "cause": O.cause_of(tr.tags, k)}, order=k, phase=phase, tick=tr.tick)
+        exp_client = getattr(o, "_vf_expected_client", None)
+        if exp_client is not None and (o.client is not exp_client or not any(x is o for x in b._client_orders.get(exp_client, []))):
+            tr.violate("C15", "replacement-filed-under-another-client", {}, order=k, tick=tr.tick, got=getattr(o.client, "username", None), expected=getattr(exp_client, "username", None))
         if b._orders.get(o.id) is not o:
             tr.violate("C15", "lookup-by-id-wrong-object", {}, order=k, tick=tr.tick)
         if fw.markets.get_order(market.market_id, o.id) is not o:
